@@ -129,6 +129,14 @@ func (v *Verifier) report(prop, tier string, seed int, reps []*FuncReport, obs, 
 	if nProved != nObl || nObl == 0 {
 		level = "other"
 	}
+	// a partial claim (part of the property is residue) is reported at level "other"
+	// even when every generated obligation discharges
+	if l := os.Getenv("GVC_LEVEL"); l != "" && l != "proof" {
+		level = l
+	}
+	if v.LevelCap != "" && v.LevelCap != "proof" {
+		level = v.LevelCap
+	}
 	trusted := []string{
 		"go/packages + go/ssa (x/tools v0.29.0) produce SSA faithful to the compiler for the supported instruction subset",
 		"gvc itself (symbolic executor, contract reader, SMT emitter)",
